@@ -41,6 +41,8 @@ def gen(rng):
                                many_exact=rng.random() < 0.7)
     knobs = {"threads": rng.randrange(1, 5), "config_arg": rng.choice(["rel", "abs"])}
     knobs = scen.env_knobs(rng, knobs, unusable_tmp=True)
+    if len(wm["files"]) > 100:
+        knobs.pop("jitter_us", None)      # (a pause before each of 5000 operations, times 15 runs, is a minute and a half)
     base = {"seed": rng.getrandbits(48) | 1, "perm": True, "faults": []}
     return wm, knobs, base
 
@@ -59,8 +61,9 @@ def plans_for(rng, ops, phm, tier, base):
             single.append({"k": o.k, "act": "torn", "errno": rng.choice(["EIO", "ENOSPC"]), "frac": rng.choice([0.1, 0.5, 0.9])})
     plans = []
     huge = len(ops) > 2500       # a world of several hundred files: thousands of sites, each costing a run over all of them
-    if thorough and huge:
-        chosen = common.weighted_sample(rng, single, [1] * len(single), 40)
+    if huge:
+        # (there the persistent plans below are what matters: every file, or exactly the n-th, fails)
+        chosen = common.weighted_sample(rng, single, [1] * len(single), 40 if thorough else 3)
     elif thorough and len(single) > 300:
         chosen = common.weighted_sample(rng, single, [1] * len(single), 300)
     elif thorough or len(single) <= 14:
@@ -74,7 +77,7 @@ def plans_for(rng, ops, phm, tier, base):
     counts = {"OPEN_W": 0, "WRITE": 0, "RENAME": 0}
     for o in sites:
         counts[o.kind] += 1
-    nmulti = 6 if (not thorough or huge) else 40
+    nmulti = (6 if (not thorough or huge) else 40) if not (huge and not thorough) else 2
     for _ in range(nmulti):
         fs = []
         used = set()
